@@ -74,8 +74,13 @@ def restamped(rng):
     """the shipped file with its records re-stamped (sim/evtxmut.py) -> (bytes, dump, times, pattern)"""
     import evtxmut
     base = fixtures.load("pnp")
-    pattern = rng.choice(evtxmut.PATTERNS)
-    times = evtxmut.gen_times(rng, evtxmut.records(base), pattern)
+    perm = None
+    if rng.random() < 0.5:
+        perm = list(range(evtxmut.used_chunks(base)))
+        rng.shuffle(perm)
+        base = evtxmut.permute_chunks(base, perm)
+    pattern = rng.choice(evtxmut.PATTERNS) + ("" if perm is None else "+chunks%s" % "".join(str(k) for k in perm))
+    times = evtxmut.gen_times(rng, evtxmut.records(base), pattern.split("+")[0])
     data = evtxmut.restamp(base, times)
     recs = dump_bytes(data)
     if [t for (_, _, t) in recs] != [t // 1000 * 1000 for t in times]:      # the evtx crate reads FILETIMEs to the microsecond
@@ -164,7 +169,9 @@ def run_case(seed, i, tier):
     cr.probes["container_" + cont] += 1
     cr.probes["window_" + form] += 1
     if pattern:
-        cr.probes["restamped_" + pattern] += 1
+        cr.probes["restamped_" + pattern.split("+")[0]] += 1
+        if "+chunks" in pattern:
+            cr.probes["chunks_permuted"] += 1
     rtimes = set(t for (_, _, t) in recs)
     if a in rtimes or b in rtimes:
         cr.probes["bound_exactly_on_a_record_time"] += 1
@@ -180,7 +187,7 @@ def run_case(seed, i, tier):
             vs.append(("records_differ", d))
     for (cls, detail) in vs:
         rp = {"scenario": scn.to_json(), "plan": plan.as_replay(tr).to_json(), "class": cls, "fixture": name, "a": a, "b": b,
-              "times_ns": times}
+              "times_ns": times, "restamp_pattern": pattern}
         cr.violations.append(Violation(cls, "file=%s%s container=%s window=%s (a=%s b=%s) argv=%s: %s" % (
             name, " re-stamped:" + pattern if pattern else "", cont, form, a, b, argv[:-1], detail), rp))
     cr.sample = {"argv": argv, "fixture": name, "restamped": pattern, "records_in_file": len(recs), "expected_selected": len(want), "a_ns": a, "b_ns": b}
@@ -215,7 +222,11 @@ def classes_of(rp):
     cl = set(c for (c, _) in mergecheck.evaluate(res, None, check_protocol=False))
     if rp.get("times_ns"):
         import evtxmut
-        recs = dump_bytes(evtxmut.restamp(fixtures.load("pnp"), rp["times_ns"]))
+        base = fixtures.load("pnp")
+        pat = rp.get("restamp_pattern") or ""
+        if "+chunks" in pat:
+            base = evtxmut.permute_chunks(base, [int(ch) for ch in pat.split("+chunks")[1]])
+        recs = dump_bytes(evtxmut.restamp(base, rp["times_ns"]))
     else:
         recs = dump(rp["fixture"])
     if not cl and check(res.stdout, expected_ids(recs, rp["a"], rp["b"])):
@@ -230,7 +241,7 @@ def replay(rp):
 
 RULE = ("one case = a shipped .evtx file (Microsoft-Windows-Kernel-PnP%4Configuration.evtx, 227 records, stored out of "
         "order; NoEvents.evtx) or that file with every record re-stamped (sim/evtxmut.py: shuffled / reversed / all equal / "
-        "tie groups / second edges / increasing; chunk checksums recomputed) plain or in gz/bz2/xz/lz4/tar, with no window or a window whose bounds sit exactly on / 1 us "
+        "tie groups / second edges / increasing; chunk checksums recomputed; half of them with the 64 KiB chunks in another physical order, as in a wrapped log) plain or in gz/bz2/xz/lz4/tar, with no window or a window whose bounds sit exactly on / 1 us "
         "off / between record times, 35% inside the out-of-order region, optionally next to a text source, under a seeded "
         "schedule; non-trivial = every run; distinct = (file, container, window)")
 ASSUMPTIONS = ["the independent dump uses the same `evtx` crate (record decoding is trusted); ordering, tie rule and windowing are independent",
